@@ -56,6 +56,7 @@ def generate(rng, tier):
         meta["by_regime"][regime] = len(cases) - n0
     meta["note"] = "grid part exhaustive over pairs (quick) / triples (thorough); random part sampled"
     cases += gen.decimal_copies(rng, cases, (1500 if tier == "thorough" else 150), lambda c: max(abs(x) for k_ in 'abc' for x in c[k_]) < 10 ** 6)
+    cases += gen.p3_copies(rng, cases, ['a', 'b', 'c'], (1000 if tier == "thorough" else 120), lambda c: max(abs(x) for k_ in 'abc' for x in c[k_]) < 10 ** 6)
     cases += gen.far_copies(rng, cases, ['a', 'b', 'c'], (400 if tier == "thorough" else 60))
     return {"cases": cases, "meta": meta}
 
